@@ -476,12 +476,17 @@ fn write_cases(ctx: &mut Ctx) {
     for s in Sel::all() {
         let mut variants: Vec<(u32, u32)> = if s.m == 2 && s.kind == 0 { vec![(0x1234, 0x1EE), (0x012345, 0x3B)] } else { vec![(0xFEDC, if s.kind == 1 { 0x89AB_CDEF } else { 0x1EE })] };
         if !ctx.quick() { for _ in 0..2 { let sz = if s.m == 2 && s.kind == 0 { *rng.pick(&[0x8000u32, 0x7FFFFF, 0x40_0000, 7]) } else { rng.below(0x10000) as u32 }; let v = norm(s, sz, rng.next() as u32); variants.push(v); } }
-        for (size, opcode) in variants {
+        let n_full = variants.len();
+        // boundary sizes (both sides of the Wrath long/short threshold, the type limits) with succeeding
+        // writers only: what reaches the writer must be exactly the typed helper's header
+        let bsz: &[u32] = if s.m == 2 && s.kind == 0 { &[0, 0x7FFE, 0x7FFF, 0x8000, 0x8001, 0xFFFF, 0x10000, 0x7FFFFF] } else { &[0, 0x7FFF, 0x8000, 0xFFFF] };
+        for z in bsz { variants.push(norm(s, *z, rng.next() as u32)); }
+        for (vi, (size, opcode)) in variants.into_iter().enumerate() {
             k += 1;
             let key = key_of(&mut rng, k + 2); let pre = pre_of(&mut rng, k);
             let n = layout(s, size, opcode).len();
             let mut scr: Vec<(Vec<WEv>, &str)> = Vec::new();
-            for off in 0..n {
+            for off in 0..(if vi < n_full { n } else { 0 }) {
                 let mut fails: Vec<WEv> = failing_codes().into_iter().map(WEv::Fail).collect();
                 fails.push(WEv::Accept(0));
                 for f in fails {
